@@ -5,7 +5,8 @@
 # Prints one line per change: "<id> caught-by: ..." or "<id> MISSED".
 set -u
 P="${1:-3}"; PAT="${2:-C}"
-cd /verif
+ROOT="$(cd "$(dirname "$0")/.." && pwd)"; export ROOT
+cd "$ROOT"
 one() {
   d="$1"; id=$(basename "$d"); prop=${id%%-*}
   extra=$(python3 -c "
@@ -13,7 +14,7 @@ import json,sys,re
 m=json.load(open('$d/meta.json'))
 s=set(re.sub(r'\(.*','',x) for x in m.get('detected_by',[]))
 s.discard('$prop'); print(' '.join(sorted(s)))")
-  out=$(tools/mutant.sh "/verif/$d/patch.diff" "$prop $extra" 2>&1)
+  out=$("$ROOT/tools/mutant.sh" "$ROOT/$d/patch.diff" "$prop $extra" 2>&1)
   by=$(echo "$out" | grep '^check ' | grep 'rc=1' | sed 's/^check \([A-Z0-9]*\):.*/\1/' | tr '\n' ' ')
   if echo "$out" | grep -q "PATCH FAILED"; then echo "$id PATCH-FAILED"; elif [ -n "$by" ]; then echo "$id caught-by: $by"; else echo "$id MISSED :: $(echo "$out" | grep '^check ' | cut -c1-120 | tr '\n' ' ')"; fi
 }
